@@ -91,6 +91,38 @@ func (b *Binder) Bind(_ kubernetes.Interface, tasks []*api.TaskInfo) map[api.Tas
 	return out
 }
 
+// PreBinder is registered on the cache like a plugin's pre-binder (RegisterBinder):
+// PreBind fails for the chosen pods; roll-backs are counted.
+type PreBinder struct {
+	Fail      map[int64]bool
+	PreBinds  int
+	RollBacks int
+}
+
+func (p *PreBinder) PreBind(_ context.Context, bc *cache.BindContext) error {
+	p.PreBinds++
+	if p.Fail[sched.ParseID(string(bc.TaskInfo.UID))] {
+		return fmt.Errorf("scripted pre-bind failure")
+	}
+	return nil
+}
+func (p *PreBinder) PreBindRollBack(_ context.Context, _ *cache.BindContext) { p.RollBacks++ }
+
+// StatusUpdater answers the pod status update a failed (pre-)bind triggers.
+type StatusUpdater struct {
+	util.FakeStatusUpdater
+	FailPod bool
+	PodUpdates int
+}
+
+func (u *StatusUpdater) UpdatePodStatus(pod *v1.Pod) (*v1.Pod, error) {
+	u.PodUpdates++
+	if u.FailPod {
+		return nil, fmt.Errorf("scripted status update failure")
+	}
+	return pod, nil
+}
+
 type Evictor struct {
 	Fail map[int64]bool
 	Done chan struct{}
@@ -195,6 +227,9 @@ type Ctl struct {
 	DelQ    *Queue
 	Binder  *Binder
 	Evictor *Evictor
+	PreBinder *PreBinder
+	Status  *StatusUpdater
+	gone    map[int64]bool    // deleted on the API server, delete notification not delivered yet
 	pods    map[int64]*v1.Pod // informer store: last delivered version
 	pgs     map[int64]*schedulingv1beta1.PodGroup
 	queues  map[int64]*schedulingv1beta1.Queue
@@ -206,9 +241,11 @@ func New() *Ctl {
 		ErrQ: &Queue{}, DelQ: &Queue{},
 		Binder:  &Binder{Fail: map[int64]bool{}},
 		Evictor: &Evictor{Fail: map[int64]bool{}, Done: make(chan struct{}, 16)},
+		PreBinder: &PreBinder{Fail: map[int64]bool{}}, Status: &StatusUpdater{}, gone: map[int64]bool{},
 		pods:    map[int64]*v1.Pod{}, pgs: map[int64]*schedulingv1beta1.PodGroup{}, queues: map[int64]*schedulingv1beta1.Queue{},
 	}
-	c.SC = cache.NewCustomMockSchedulerCache("volcano", c.Binder, c.Evictor, &util.FakeStatusUpdater{}, nil, &record.FakeRecorder{})
+	c.SC = cache.NewCustomMockSchedulerCache("volcano", c.Binder, c.Evictor, c.Status, nil, &record.FakeRecorder{})
+	c.SC.RegisterBinder("verif-prebinder", c.PreBinder)
 	c.SC.VerifSetErrTasksQueue(c.ErrQ)
 	c.SC.DeletedJobs = c.DelQ
 	return c
@@ -220,18 +257,36 @@ func (c *Ctl) PodEvent(p PodSpec) {
 	pod := p.Object()
 	pod.ResourceVersion = c.nextRV()
 	pods := c.SC.Client().CoreV1().Pods("ns")
-	if old, ok := c.pods[p.ID]; ok {
+	old, known := c.pods[p.ID]
+	if known && !c.gone[p.ID] {
 		if _, err := pods.Update(context.TODO(), pod.DeepCopy(), metav1.UpdateOptions{}); err != nil {
 			panic(err)
 		}
-		c.SC.UpdatePod(old, pod)
 	} else {
 		if _, err := pods.Create(context.TODO(), pod.DeepCopy(), metav1.CreateOptions{}); err != nil {
 			panic(err)
 		}
+	}
+	delete(c.gone, p.ID)
+	if known {
+		c.SC.UpdatePod(old, pod)
+	} else {
 		c.SC.AddPod(pod)
 	}
 	c.pods[p.ID] = pod
+}
+
+// ApiGone deletes the pod on the (fake) API server only: the informer has not
+// delivered the delete yet, a resync in between finds no object.
+func (c *Ctl) ApiGone(id int64) {
+	old, ok := c.pods[id]
+	if !ok || c.gone[id] {
+		return
+	}
+	if err := c.SC.Client().CoreV1().Pods("ns").Delete(context.TODO(), old.Name, metav1.DeleteOptions{}); err != nil {
+		panic(err)
+	}
+	c.gone[id] = true
 }
 
 func (c *Ctl) PodDelete(id int64) {
@@ -239,9 +294,12 @@ func (c *Ctl) PodDelete(id int64) {
 	if !ok {
 		return
 	}
-	if err := c.SC.Client().CoreV1().Pods("ns").Delete(context.TODO(), old.Name, metav1.DeleteOptions{}); err != nil {
-		panic(err)
+	if !c.gone[id] {
+		if err := c.SC.Client().CoreV1().Pods("ns").Delete(context.TODO(), old.Name, metav1.DeleteOptions{}); err != nil {
+			panic(err)
+		}
 	}
+	delete(c.gone, id)
 	c.SC.DeletePod(old)
 	delete(c.pods, id)
 }
@@ -329,16 +387,36 @@ func errCode(err error) int64 {
 	return 4
 }
 
-func (c *Ctl) Bind(j, t, n int64, ok bool) int64 {
+// Bind: AddBindTask, then the bind flow (pre-binders, Binder.Bind) inline.
+// fault: 1 bound; 0 Binder.Bind fails; 2 PreBind fails, status update succeeds;
+// 3 PreBind fails and the status update fails too.
+func (c *Ctl) Bind(j, t, n int64, fault int64) int64 {
 	ti := c.cycleTask(j, t)
 	ti.NodeName = sched.NodeName(n)
-	c.Binder.Fail[t] = !ok
+	c.Binder.Fail[t] = fault == 0
+	c.PreBinder.Fail[t] = fault >= 2
+	c.Status.FailPod = fault == 3
+	pre, rb, up := c.PreBinder.PreBinds, c.PreBinder.RollBacks, c.Status.PodUpdates
 	err := c.SC.AddBindTask(&cache.BindContext{TaskInfo: ti})
 	if err == nil {
 		if c.SC.VerifProcessBindFlow() != 1 {
 			panic("bind flow: expected exactly one queued bind context")
 		}
+		// harness-side assertions on the collaboration with the pre-binder
+		if c.PreBinder.PreBinds != pre+1 {
+			panic("bind flow: the registered pre-binder was not run exactly once")
+		}
+		if fault == 0 && c.PreBinder.RollBacks != rb+1 {
+			panic("bind flow: a failed Binder.Bind did not roll the pre-binder back")
+		}
+		if fault == 1 && (c.PreBinder.RollBacks != rb || c.Status.PodUpdates != up) {
+			panic("bind flow: successful bind rolled back / reported unschedulable")
+		}
+		if fault != 1 && c.Status.PodUpdates != up+1 {
+			panic("bind flow: a failed (pre-)bind did not report the pod unschedulable")
+		}
 	}
+	c.Status.FailPod = false
 	return errCode(err)
 }
 
